@@ -653,6 +653,20 @@ def _subset_reach():
 axiom('subset', 'lemma', 'subset-reach', _subset_reach())
 
 
+# names of the subsets of a set: the universe in which the subset construction looks for new states (termination measure of nfa_to_dfa)
+pow_names = Function('pow_names', SetA, SetA); sub_of = Function('sub_of', SetA, SetA, z3.BoolSort())
+_An = Const('An', SetA)
+axiom('subset', 'def', 'sub_of-def', ForAll([_S, _An], sub_of(_S, _An) == ForAll([_x], Implies(Select(_S, _x), Select(_An, _x)))))
+axiom('subset', 'def', 'pow_names-def', ForAll([_An, _x], Select(pow_names(_An), _x) == And(sub_of(set_of_name(_x), _An), name_of_set(set_of_name(_x)) == _x)))
+def _pow_fin():
+    from . import sets as _S1
+    A = SV(SET(ATOM), _An)
+    return ForAll([_An], Implies(_S1.fin(A), _S1.fin(SV(SET(ATOM), pow_names(_An)))))
+axiom('subset', 'assumed', 'pow-fin: a finite set has finitely many subsets, hence finitely many subset names (Lean: F10_finite_pow_names)', _pow_fin())
+@spec('pow_names')
+def s_pow_names(ev, A): return SV(SET(ATOM), pow_names(A.z))
+
+
 def Sreach_least(V, e, q0, Sg, P):
     """leastness instance for Sreach: P is a predicate (python function on a SetA term) closed under the two rules"""
     Sx, a = fresh_z('S', SetA), fresh_z('a', Atom)
